@@ -11,6 +11,7 @@ import Driver.C15
 import Driver.C06Mon
 import Driver.C17
 import Driver.C03
+import Driver.C18
 open Kv
 
 structure DState where
@@ -37,6 +38,7 @@ def dispatch (st : DState) (prop : String) (l : Line) : DState × String :=
   | "C06" => (st, Drv.C06.step l)
   | "C17" => let (s, r) := Drv.C17.step st.c17 l; ({ st with c17 := s }, r)
   | "C03" => let (s, r) := Drv.C03.step st.c03 l; ({ st with c03 := s }, r)
+  | "C18" => (st, Drv.C18.step l)
   | _ => (st, "bad-op")
 
 def main : IO Unit := driverMain dispatch {}
